@@ -479,6 +479,8 @@ def bounded_filesets(rng, tier):
         return fs, points
     configs = [(1, None, False), (2, "primary", False), (2, "daily", True)] if tier == "quick" else \
         list(itertools.product([1, 2, 3], [None, "primary", "daily"], [False, True])) * 2
+    # one more kind of configuration: a file overwritten with garbage, skip_file_errors=True (memory output)
+    corrupt_runs = [(1, None), (2, "primary")] if tier == "quick" else [(p_, b_) for p_ in (1, 2, 3) for b_ in (None, "primary", "daily")]
     logging.disable(logging.CRITICAL)
     root = tempfile.mkdtemp(prefix="c05_")
     try:
@@ -533,6 +535,44 @@ def bounded_filesets(rng, tier):
                 failures.append(dict(case, problem="; ".join(problems)[:700]))
             elif len(samples) < 3:
                 samples.append(case)
+        # unreadable file: only the collocations that involve its points may disappear
+        r3 = _os2.path.join(root, "bad")
+        P_, pp = make(r3, "P", 60, "pid", 0)
+        S_, sp = make(r3, "S", 20, "sid", 1000)
+        start, end = day, day + timedelta(minutes=179)
+        for which, (processes, bundle) in enumerate(corrupt_runs):
+            side, pts = (("S", sp) if which % 2 == 0 else ("P", pp))
+            d_ = _os2.path.join(r3, side)
+            victim = sorted(_os2.listdir(d_))[rng.randrange(len(_os2.listdir(d_)))]
+            keep = _os2.path.join(r3, "saved.pkl")
+            shutil.copy(_os2.path.join(d_, victim), keep)
+            with open(_os2.path.join(d_, victim), "wb") as fh:
+                fh.write(b"this is not a pickle")
+            v_s = datetime.strptime(victim[:15], "%Y%m%d_%H%M%S")
+            v_e = datetime.strptime(victim[16:31], "%Y%m%d_%H%M%S")
+            lost = {p_[0] for p_ in pts if v_s <= p_[1] <= v_e}
+            truth = Counter((p[0], s[0]) for p in pp for s in sp
+                            if p[2] == s[2] and abs(p[1] - s[1]) < max_interval and p[0] not in lost and s[0] not in lost)
+            evals += 1
+            distinct.add(("corrupt", side, processes, bundle))
+            case = {"unreadable": side + "/" + victim, "processes": processes, "bundle": bundle, "true_pairs": sum(truth.values())}
+            try:
+                with warnings.catch_warnings():
+                    warnings.simplefilter("ignore")
+                    found = Counter()
+                    for ds, _attrs in Collocator().collocate_filesets([P_, S_], start=start, end=end, max_interval=max_interval, max_distance=max_km,
+                                                                      processes=processes, bundle=bundle, skip_file_errors=True):
+                        pr = ds["Collocations/pairs"].values.astype(int)
+                        found.update(zip(ds["P/pid"].values[pr[0]].astype(int).tolist(), ds["S/sid"].values[pr[1]].astype(int).tolist()))
+                if found != truth:
+                    failures.append(dict(case, problem="with skip_file_errors more than the collocations of the unreadable file changed: missing %s, surplus %s"
+                                         % (sorted((truth - found).elements())[:4], sorted((found - truth).elements())[:4])))
+                elif len(samples) < 4:
+                    samples.append(case)
+            except Exception as exc:
+                failures.append(dict(case, problem="exception %r" % (exc,)))
+            finally:
+                shutil.copy(keep, _os2.path.join(d_, victim))
     finally:
         logging.disable(logging.NOTSET)
         shutil.rmtree(root, ignore_errors=True)
